@@ -321,6 +321,74 @@ theorem isCommitted_reads_what_update_reads (c : Cfg) (s : Store) (has : String 
   · unfold managerIsCommitted; rw [hr]
   · intro x hx; rw [hp]; exact List.mem_append_left _ hx
 
+/-! ### the manager's own `store.Add` at the end of `Update` -/
+
+/-- after a successful `store.Add` the store holds the transaction (by ref) -/
+theorem add_then_contains (cfg : C10.Cfg) (s s1 : Store) (e : Event) (h : add cfg s e = .ok s1) :
+    contains (s1.get e.doc.id).events e = true := by
+  obtain ⟨_, hcase⟩ := add_get cfg s s1 e h
+  rcases hcase with ⟨hnone, heq⟩ | hsome
+  · rw [heq]
+    unfold addDid at hnone
+    by_cases hc : contains (s.get e.doc.id).events e = true
+    · exact hc
+    · rw [if_neg hc] at hnone
+      simp only [] at hnone
+      split at hnone
+      · cases hnone
+      · cases hnone
+      · split at hnone <;> cases hnone
+  · unfold addDid at hsome
+    by_cases hc : contains (s.get e.doc.id).events e = true
+    · rw [if_pos hc] at hsome; cases hsome
+    · rw [if_neg hc] at hsome
+      simp only [] at hsome
+      split at hsome
+      · cases hsome
+      · cases hsome
+      · split at hsome
+        · cases hsome
+        · simp only [Res.ok.injEq, Option.some.injEq] at hsome
+          rw [← hsome]
+          simp only []
+          unfold contains
+          rw [List.any_eq_true]
+          exact ⟨e, (insert_perm e _).mem_iff.mpr List.mem_cons_self, by simp⟩
+
+/-- **The manager's own write is the ambassador's write**: whenever the receiving ambassador accepts the published
+    transaction, the state it reaches is the one `Manager.Update`'s own `store.Add` reaches from the same store -/
+theorem own_add_is_the_ambassadors_add (c : Cfg) (s s' : Store) (tx : Tx) (p : Published)
+    (h : callback c s tx (some p.doc) = .ok s') : managerOwnAdd c s tx p = .ok s' := by
+  obtain ⟨d, hd, hadd⟩ := callback_ok_add c s s' tx _ h
+  cases hd
+  unfold managerOwnAdd; rw [hadd]
+
+/-- **Own updates come back as duplicates**: after `Manager.Update` wrote its transaction itself, the delivery of that
+    transaction through the network changes nothing — whether the ambassador accepts it (same event, by ref) or refuses it
+    (`rejected_inert`) -/
+theorem own_update_redelivery_inert (c : Cfg) (s s1 : Store) (tx : Tx) (p : Published)
+    (hown : managerOwnAdd c s tx p = .ok s1) :
+    ∀ s2, callback c s1 tx (some p.doc) = .ok s2 → s2 = s1 := by
+  intro s2 h
+  have hadd : add c.store s (eventOf tx p.doc) = .ok s1 := by
+    unfold managerOwnAdd at hown
+    cases ha : add c.store s (eventOf tx p.doc) with
+    | ok x => rw [ha] at hown; simpa using hown
+    | err e => rw [ha] at hown; cases hown
+    | panic x => rw [ha] at hown; cases hown
+  have hc := add_then_contains c.store s s1 _ hadd
+  have hr := reprocessOne_known c s1 tx p.doc hc
+  unfold reprocessOne at hr
+  rw [h] at hr
+  exact hr
+
+/-- and then `IsCommitted` is decided by the hash the store derived for the latest version -/
+theorem own_add_then_isCommitted (c : Cfg) (s s1 : Store) (tx : Tx) (p : Published) (d : Doc) (m : Meta)
+    (_hown : managerOwnAdd c s tx p = .ok s1)
+    (hr : resolve s1 p.doc.id (some { allowDeactivated := true }) = .ok (d, m)) (h : Hash) :
+    managerIsCommitted s1 p.doc.id h = .ok (m.hash == h) := by
+  unfold managerIsCommitted; rw [hr]
+
 /-! ### non-vacuity -/
 
 private def kv (i : String) : NVM := { id := "did:nuts:A#" ++ i, pfx := "did:nuts:A", frag := i, key := .key i }
